@@ -6,12 +6,12 @@ import os
 import shutil
 import tempfile
 
-from .. import coqbuild
+from .. import coqbuild, fatie
 from ..common import GLOBAL_TRUSTED_BASE
 from ..model import call_many
 from ..pool import guarded, run_cases
 
-THEOREMS = ["C13_shape_preserved", "C13_one_parameter", "C13_alignment", "C13_defaults_unchanged_partial", "C13_defaults_refuted"]
+THEOREMS = ["C13_shape_preserved", "C13_one_parameter", "C13_alignment", "C13_defaults_unchanged_partial", "C13_defaults_refuted", "C13_lookup_class_attribute", "C13_lookup_parameter", "C13_lookup_refuted", "C13_lookup_examples"]
 CLS = ["Alpha", "Beta", "Gamma"]
 FNS = ["compute", "render", "fetch"]
 ATTRS = ["width", "label", "mode", "ratio", "count"]
@@ -372,11 +372,22 @@ def collect(ctx, n, _unused=0):
                      "in_kind": "attr", "out_kind": "param", "wrap": False, "eval": False})
     agg = {"n": 0, "ran": 0, "raised": 0, "modelled": 0}
     items, corr = [], []
+    # the lookup itself (find_in_ast after annotate_ancestry) against Model/FindAst.v: every path of some of the generated modules,
+    # misses, 3-name paths
+    look = []
+    for c in cases[: max(20, n // 4)]:
+        for src in {c["input_src"], c["output_src"]}:
+            ss = fatie.searches(rng, src, PARAMS + ATTRS)
+            look += [(src, s_) for s_ in rng.sample(ss, min(6, len(ss)))]
+    n_look, look_kinds, look_bad = fatie.compare(look)
+    corr += look_bad[:3]
+    agg["lookups"] = n_look
+    agg["lookup_kinds"] = look_kinds
     for r in run_cases(worker, [cases[i:i + 10] for i in range(0, len(cases), 10)], chunk=1):
         if "harness_error" in r:
             items.append(("C13/harness/error", {"detail": r}, None))
             continue
-        for k in agg:
+        for k in ("n", "ran", "raised", "modelled"):
             agg[k] += r[k]
         items += r["items"]
         corr += r["corr"][:3]
@@ -392,7 +403,8 @@ def run(ctx):
                        "detail": det})
     if not ctx.violations:
         if corr:
-            ctx.violation({"stage": "correspondence: Model/Rewrite.v rewrite vs the output file's AST after sync_properties", "detail": corr[:2],
+            ctx.violation({"stage": "correspondence: Model/Rewrite.v rewrite vs the output file's AST after sync_properties; Model/FindAst.v vs find_in_ast",
+                           "detail": corr[:2],
                            "n_disagreements": len(corr)}, no_input=True)
         elif not status["ok"]:
             ctx.violation({"stage": "proof", "theorem": status.get("failing_theorem"),
@@ -409,7 +421,8 @@ def run(ctx):
                 "parameters with and without defaults and keyword-only parameters, unrelated statements) x a valid (input, output) dotted "
                 "path pair x wrap template present/absent x --input-eval; non-trivial = sync_properties ran to completion",
         "completed": agg["ran"], "raised": agg["raised"], "compared_with_model": agg["modelled"], "model_disagreements": len(corr),
-        "traces_validated_against_impl": agg["modelled"],
+        "lookups_compared_with_model": agg["lookups"], "lookup_result_kinds": agg["lookup_kinds"],
+        "traces_validated_against_impl": agg["modelled"] + agg["lookups"],
         "samples": [{k: cases[0][k] for k in ("input_param", "output_param", "wrap", "eval")}, cases[0]["output_src"][:300]],
         "build": {k: status[k] for k in ("build_s", "forbidden")},
     }
